@@ -2,6 +2,7 @@ package rules
 
 import (
 	"go/ast"
+	"go/token"
 	"go/types"
 	"strings"
 
@@ -40,7 +41,9 @@ func c33(r *core.Run) {
 		"(only map/set inserts and deletes, commutative accumulation, constant-returning search, or collection into slices that are sorted afterwards in the same function), or is one of the reviewed loops (one reason each); " +
 		"comments such as //nolint:maprange are not trusted; (R2) goroutine starts, select statements, sync.Map.Range and the nondeterministic library sources (time.Now, math/rand, crypto/rand, maps.Keys/Values, …) occur only in the reviewed functions (tracing, metrics, coverage, storage-commit worker count); " +
 		"(R3) commit order: Storage.commit takes atree's deterministic FastCommit exactly when its `deterministic` parameter is true, every caller except the deprecated NondeterministicCommit passes the constant true, " +
-		"AccountStorage.commit writes more than one pending index only from the sorted slice, and contract updates are written by iterating an ordered map; (R4) pool objects are cleared before Put and the CCF scratch buffer is released only by a deferred call (its bytes are still referenced until the encoder returns, so an early release makes concurrent encodings schedule-dependent)."
+		"AccountStorage.commit writes more than one pending index only from the sorted slice, and contract updates are written by iterating an ordered map; (R4) pool objects are cleared before Put and the CCF scratch buffer is released only by a deferred call (its bytes are still referenced until the encoder returns, so an early release makes concurrent encodings schedule-dependent); " +
+		"a slice collected from a map and sorted with a comparator literal is ordered by the field that holds the map key (any other field can tie, and ties keep the random iteration order); " +
+		"(R5) every numeric field of an environment-lifetime object of package runtime that is updated by accumulation is reset to a constant by Configure (no history carried from one execution into the next)."
 	r.NotDecided = "byte equality of whole runs; atree's parallel slab encoder (external module); map iteration inside dependencies."
 	w := r.W
 	mapRangeRule(r, "R1.maprange", execPkgs)
@@ -204,6 +207,7 @@ func c33(r *core.Run) {
 	// R4 pooled scratch objects cannot leak one encoder's bytes into another's output (schedule-dependent results)
 	poolReleaseDiscipline(r, "R4.pools")
 	r.Floor("R4.pools", 3)
+	c33CounterReset(r)
 }
 
 // clockEscapes follows a wall-clock value (time.Time or time.Duration): it may only be spilled to local cells,
@@ -280,3 +284,106 @@ func clockEscapes(v ssa.Value) string {
 }
 
 func cellAliasesPublic(a ssa.Value) []ssa.Value { return core.CellAliases(a) }
+
+// c33CounterReset: R5 — hosts reuse one Environment for many executions. A numeric field of an object that lives as
+// long as the environment (a struct of package runtime held in a field of InterpreterEnvironment / vmEnvironment /
+// CheckingEnvironment) and that is updated by accumulation (f++, f--, f += x) carries history from one execution into
+// the next unless the per-execution (re)configuration stores a constant into it. Without the reset the outcome of an
+// execution depends on how earlier executions ended (e.g. a call-depth counter left non-zero by an aborted run).
+func c33CounterReset(r *core.Run) {
+	w := r.W
+	rule := "R5.reset"
+	rt := w.Pkg("runtime")
+	if rt == nil {
+		r.Undecided(rule, "runtime", "package not loaded")
+		return
+	}
+	// environment-lifetime struct types
+	life := map[*types.Named]string{}
+	for _, en := range []string{"InterpreterEnvironment", "vmEnvironment", "CheckingEnvironment"} {
+		nt := w.Named("runtime", en)
+		if nt == nil {
+			r.Undecided(rule, "runtime."+en, "does not resolve")
+			continue
+		}
+		st, ok := nt.Underlying().(*types.Struct)
+		if !ok {
+			continue
+		}
+		for i := 0; i < st.NumFields(); i++ {
+			ft := st.Field(i).Type()
+			if p, ok := ft.(*types.Pointer); ok {
+				ft = p.Elem()
+			}
+			if fnt, ok := ft.(*types.Named); ok && fnt.Obj().Pkg() != nil && fnt.Obj().Pkg().Path() == mod+"/runtime" {
+				if _, isStruct := fnt.Underlying().(*types.Struct); isStruct {
+					life[fnt] = en + "." + st.Field(i).Name()
+				}
+			}
+		}
+	}
+	fieldOf := func(a ssa.Value) (*types.Named, string) {
+		fa, ok := a.(*ssa.FieldAddr)
+		if !ok {
+			return nil, ""
+		}
+		pt, ok := fa.X.Type().Underlying().(*types.Pointer)
+		if !ok {
+			return nil, ""
+		}
+		nt, ok := pt.Elem().(*types.Named)
+		if !ok {
+			return nil, ""
+		}
+		st, ok := nt.Underlying().(*types.Struct)
+		if !ok {
+			return nil, ""
+		}
+		return nt, st.Field(fa.Field).Name()
+	}
+	type fk struct {
+		t *types.Named
+		f string
+	}
+	accum := map[fk]token.Pos{}
+	reset := map[fk]bool{}
+	for _, fn := range w.SrcFuncsIn("runtime") {
+		if fn.Parent() != nil {
+			continue
+		}
+		isConfigure := fn.Name() == "Configure" || fn.Name() == "configure"
+		core.Instrs(fn, true, func(in ssa.Instruction) {
+			st, ok := in.(*ssa.Store)
+			if !ok {
+				return
+			}
+			nt, f := fieldOf(st.Addr)
+			if nt == nil || life[nt] == "" {
+				return
+			}
+			if _, isConst := st.Val.(*ssa.Const); isConst && isConfigure {
+				reset[fk{nt, f}] = true
+				return
+			}
+			if bo, ok := st.Val.(*ssa.BinOp); ok {
+				for _, op := range []ssa.Value{bo.X, bo.Y} {
+					if ld, ok := op.(*ssa.UnOp); ok && ld.Op == token.MUL {
+						if nt2, f2 := fieldOf(ld.X); nt2 == nt && f2 == f {
+							if _, seen := accum[fk{nt, f}]; !seen {
+								accum[fk{nt, f}] = st.Pos()
+							}
+						}
+					}
+				}
+			}
+		})
+	}
+	n := 0
+	for k, pos := range accum {
+		n++
+		r.Check(reset[k], rule, "runtime."+k.t.Obj().Name()+"."+k.f+" (held by "+life[k.t]+")", pos, "accumulated during an execution and reset to a constant by Configure",
+			"a counter on an environment-lifetime object is accumulated during executions but never reset by Configure: what an aborted execution leaves in it changes the outcome of later executions in the same environment")
+	}
+	r.Check(n >= 1, rule, "runtime: accumulated fields of environment-lifetime objects", 0, itoa(n)+" found", "the call-depth counter of the interpreter environment was not found")
+	r.Floor(rule, 2)
+}
